@@ -138,10 +138,16 @@ def lean_step(prop: str, extra_modules: list[str] | None = None, thorough: bool 
     try:
         try:
             res.tables_changed = extract_tables.write_tables()
+            for f in getattr(extract_tables.write_tables, "failed", []):
+                res.log += f"T1 extraction failed for {f}\n"
         except Exception as e:  # extraction failing = source no longer has the shape the translator reads
             res.ok = False
             res.broken.append(f"T1 table extraction failed: {e!r}")
             res.log += f"extract_tables: {e!r}\n"
+        try:
+            _run([sys.executable, str(VERIF / "gen_root.py")], cwd=VERIF, timeout=60)
+        except Exception as e:  # noqa: BLE001
+            res.log += f"gen_root: {e!r}\n"
         mods = [f"Rpft.Props.{prop}"] + (extra_modules or [])
         cmd = ["lake", "build"] + mods + ["rpft_driver"]
         res.cmds.append("cd lean && " + " ".join(cmd))
@@ -314,6 +320,13 @@ class Check:
         self.violations.append({"what": what, "replay": replay})
 
     def known(self, fid: str, what: str, example=None):
+        """A failure attributed to a listed finding.  Only an OPEN record suppresses: a finding
+        recorded as fixed (or not listed at all) that shows again is a violation."""
+        rec = [f for f in self.findings if f.get("id") == fid and f.get("status") == "open"]
+        if not rec:
+            self.violation(f"{fid} is not an open known finding (fixed or unlisted) but the failure is present: {what}",
+                           {"finding": fid, "example": example})
+            return
         if fid not in self.known_seen:
             self.known_seen[fid] = {"what": what, "example": example}
 
